@@ -88,7 +88,8 @@ fn compare(acc: &mut Acc, iface: &IfaceDesc, variation: &str, sigkey: &str, cano
         chunks.push(variant.len() - last);
         par::case_begin(variant, [1, 0, 0, 0]);
         let n = (iface.ns)().into_iter().max().unwrap_or(1024);
-        if n < variant.len() + 64 {
+        // the message and all its responses must have room in process' buffers
+        if n < variant.len() + 64 || n < reference.out.len() + 64 {
             return;
         }
         let out = (iface.process)(&crate::drive::ProcSpec { stream: variant, n, chunks: &chunks, pend_seed: 0, fault_at: None });
